@@ -19,7 +19,7 @@ CLAIMS = {
              'the tracing translator is trusted but its output is compared with the real functions on every operand combination on every run.'),
     'C01': dict(
         technique='Coq proof that the scheduler\'s op list, executed gate by gate, satisfies every node\'s equation for all well-formed acyclic netlists (+ uniqueness), over regenerated LUT/dispatch tables; memory map by certificate; exact correspondence; gate-by-gate oracle',
-        text='Proof (default options end to end; with c_reuse/strip_forks the memory level goes by certificate). Proved for all inputs: every LUT constant equals its primitive\'s '
+        text='Proof (end to end for all option combinations, from the compared model down to the unique gate-by-gate solution). Proved for all inputs: every LUT constant equals its primitive\'s '
              'Boolean function; both 2-valued dispatch copies (re-traced from the source on every run) compute it per lane; primitive '
              'selection; opcode injectivity; lane independence for any batch size; and the MAIN theorem: for EVERY well-formed, '
              'combinationally acyclic netlist and EVERY stimulus the op list that SimOps builds (Kahn order, interface BUF/INV ops, forks, '
@@ -31,8 +31,7 @@ CLAIMS = {
              'on every generated circuit, plus an independent evaluator.',
         design_ref='5/C01',
         note='Modelled not verified: SimOps.__init__, LogicSim.s_to_c/c_prop/c_to_s/s_ppo_to_ppi/cycle, Circuit.topological_order (hand '
-             'transcriptions tied by exact correspondence). The k-cycle iteration is a line-level theorem (C01_cycles_are_iter_sem: the scheduler-based iteration IS the k-fold application of the unique gate-by-gate solution, state elements without data line read 0) compared with LogicSim.cycle on every generated lane; '
-             'the memory-level cycle loop is tied by correspondence. Reading: a variadic gate\'s arity is its highest connected pin.'),
+             'transcriptions tied by exact correspondence). The k-cycle iteration is a line-level theorem (C01_cycles_are_iter_sem: the scheduler-based iteration IS the k-fold application of the unique gate-by-gate solution, state elements without data line read 0) compared with LogicSim.cycle on every generated lane; the correspondence-checked list-memory model (Model/LogicSimModel.v: simulate, cycles, sim_case2) is PROVED to compute exactly that (C01_logicsim_model_correct, C01_cycles_model_correct, C01_sim_case2_correct: for every option combination the model\'s captured vector is the unique gate-by-gate solution at every data line; memory carried over between cycles is safe because the zero slot is pinned and every other read is of an owned slot). Reading: a variadic gate\'s arity is its highest connected pin.'),
     'C02': dict(
         technique='Coq proofs: exhaustive sweeps of the re-traced 4/8-valued dispatch + logical-relations lemma over op lists; correspondence',
         text='Proof (full at op-list level). The 4- and 8-valued dispatch of c_prop (with and without callback) is re-traced from the '
@@ -40,8 +39,7 @@ CLAIMS = {
              'X-soundness, init/final projection and Boolean restriction are proved per primitive (exhaustive) and lifted to every op '
              'list and every stimulus by a logical-relations lemma. Scheduler and memory map are tied by correspondence (as C01).',
         design_ref='5/C02',
-        note='Modelled not verified: SimOps.__init__, LogicSim.s_to_c/c_to_s. Circuit-level theorems are over line-level op-list '
-             'semantics (Model/OpSem.v).'),
+        note='Modelled not verified: SimOps.__init__, LogicSim.s_to_c/c_to_s (correspondence). The compared memory-level model sim_case8 is proved equal to the capture of the unique multi-valued gate-by-gate solution for every option combination (C02_logicsim_model_correct), so the line-level theorems transfer to it.'),
     'C16': dict(
         technique='Coq proofs about op-list semantics with callback (any value domain) + re-traced callback dispatch; correspondence; oracle',
         text='Proof (full at op-list level). For any value domain: the callback is presented exactly the op outputs in op order, an '
@@ -50,7 +48,7 @@ CLAIMS = {
              're-traced and proved equal to the plain ones. Call protocol (Line object, writable view, which ops call back) is tied by '
              'correspondence and an oracle that rebuilds the cut circuit.',
         design_ref='5/C16',
-        note='Modelled not verified: the callback protocol inside LogicSim.c_prop (Model/LogicSimModel.v prop1_cb).'),
+        note='Modelled not verified: the callback protocol inside LogicSim.c_prop is transcribed in Model/LogicSimModel.v (prop1_cb, compared with the code: call sequence and results); that transcription is PROVED to refine the op-list callback semantics for every build() result (C16_model_callback_correct, _override, _identity, _trace, C16_sim_case8_cb_correct), so the C16 theorems hold for the compared model.'),
     'C03': dict(
         technique='Coq proof of transition-parity / initial-value invariants of a Gallina transcription of _wave_eval; whole-memory correspondence',
         text='Proof (full at op-list level). CIRCUIT LEVEL: for any op list, delays >= 0, capacities >= 4 and well-formed input waveforms every signal\'s waveform is well formed, starts at the Boolean (LUT) evaluation of the initial values and ends by parity at the Boolean evaluation of the final values, overflow or not (logical relation over the op list; with C01 the Boolean evaluation of SimOps\' op list is the netlist function). PER GATE: for ANY lookup table, ANY well-formed operand waveforms of '
@@ -226,7 +224,7 @@ CLAIMS = {
     'C11': dict(
         technique='Coq proofs over a hand transcription of the elaboration helpers of verilog.py and of the bench elaborator (exact correspondence on generated '
                   'tokens / modules / bench files) + differential oracle with generator-owned netlists rendered as Verilog and bench text',
-        text='Proof (bench format full from TEXT; Verilog: helpers, pass 0 and ports proved, module passes 1-2 being integrated; Verilog grammar by correspondence). BENCH TEXT: Model/BenchText.v is a lexer + parser for exactly the language lark accepts for bench.py\'s grammar (contextual keywords, comments, CR/LF corner cases determined by running lark); proved: parse(print l) = l for well-formed statements, insensitivity to ignored text, a declarative characterisation of the accepted texts (C11_bench_language), keyword assignments rejected; the wiring theorems now start from text (C11_bench_text_wiring). Compared with the real lark parser / bench.parse on generated, malformed and token-soup texts. Proved for ALL inputs over '
+        text='Proof (bench format full from TEXT; Verilog: everything from the parse tree on is modelled and proved, the Verilog grammar itself is tied by correspondence). VERILOG MODULE: Model/VerilogModule.v transcribes passes 0, 1, 1.5 (assign retry loop) and 2 (constants, undriven signals, one-bit buses, branch forks) and the output loop of VerilogTransformer.module on top of the circuit-edit model; proved for EVERY accepted module: the result is a consistent circuit (C11_module_consistent, io live under checkable port conditions), ports appear in port-list order with bus bits in declared range order (C11_module_ports), every named pin connection reaches exactly the cell pin the library pin table names and every line at an instance cell comes from such a pin (C11_module_pin_in/_out/_pins_only), every assign bit pair is wired in either statement order or left unresolved exactly when neither side is driven (C11_module_assign), output ports read the fork of their name or of their bit 0 (C11_module_outputs), and branchforks=True equals branchforks=False up to splitting each reader line by one fork (C11_module_branchforks[_sets]) under a name side condition whose necessity is a machine-checked witness (known finding D33); witnesses for the repaired output-loop defect (D32). Compared with the real parser by intercepting what `module` receives on generated, probe and wild modules for all five libraries and both settings (nodes, lines, pins, io incl. holes, raises). BENCH TEXT: Model/BenchText.v is a lexer + parser for exactly the language lark accepts for bench.py\'s grammar (contextual keywords, comments, CR/LF corner cases determined by running lark); proved: parse(print l) = l for well-formed statements, insensitivity to ignored text, a declarative characterisation of the accepted texts (C11_bench_language), keyword assignments rejected; the wiring theorems now start from text (C11_bench_text_wiring). Compared with the real lark parser / bench.parse on generated, malformed and token-soup texts. Proved for ALL inputs over '
              'Model/VerilogElab.v: [l:r] expands to |l-r|+1 bit names in declared direction (also for part selects), bit names are injective; w\'bN / w\'dN / '
              'w\'hN give exactly w one-bit constants, MSB first, of value N mod 2^w; concat = flat_map; the port position table numbers the port bits 0..n-1 in '
              'port-list order with bus bits in declared range order, no position twice, and io_nodes is exactly that list with the declared directions (no '
@@ -237,15 +235,13 @@ CLAIMS = {
              'surface variation, and compares io order, exhaustive truth tables (LogicSim m=2, flip-flops through state positions), the structure added by '
              'branchforks=True and the bench rendering against its own evaluation.',
         design_ref='5/C11',
-        note='Modelled not verified: VerilogTransformer.range/sigsel/concat, SignalDeclaration.names, declaration, pass 0 / positions / io_nodes of module, '
-             'BenchTransformer + Node/Line constructors. Not modelled (oracle only): grammars, passes 1, 1.5, 2 of module, TechLib, substitute. The full theorem '
-             'verilog_sem is stated as a comment in Properties/C11.v. Cell functions of the oracle are the datasheet families of C19. Out of the generated '
+        note='Modelled not verified (correspondence): VerilogTransformer.range/sigsel/concat/declaration/instantiation/module, BenchTransformer + Node/Line constructors. Not modelled: the Verilog lark grammar (oracle: generator-owned netlists rendered with surface variation incl. star-run comments, truth tables through LogicSim); the link elaborated circuit -> simulated function for Verilog goes through the oracle and C10 (resolve) + C01. Cell functions of the oracle are the datasheet families of C19. Out of the generated '
              'subset: positional pins, concatenations / wide constants on pins, ANSI headers (all rejected with an exception), floating cell inputs, assign '
              'width mismatches, escaped scalars that collide with a bus bit name.'),
     'C14': dict(
-        technique='Coq proof of slot-by-slot theorems over a Gallina transcription of the SDF transformer callbacks and of DelayFile.iopaths/interconnects; '
+        technique='Coq proofs: SDF text -> tree (lexer/parser transcription with round trip and none-lost-from-text theorems) and slot-by-slot theorems over a Gallina transcription of the SDF transformer callbacks and of DelayFile.iopaths/interconnects; '
                   'exact correspondence on generated (tree, circuit) cases incl. exceptions; generator-owned ground-truth oracle on Verilog x SDF renderings',
-        text='Proof (elaboration full, grammar by correspondence only). From the tree that the lark grammar hands to the transformer on, everything is '
+        text='Proof (full from TEXT). TEXT LEVEL: Model/SdfText.v transcribes what lark 0.12 does with sdf.GRAMMAR (contextual lexer, scanner order, ignore rules, keywords as prefixes, LALR parser); proved: parse/print round trip for every well-formed tree, insensitivity to ignored text, header / CELLTYPE / TIMINGCHECK entries are skipped without effect, and every delay entry written in any DELAY of any CELL ends up in the DelayFile under its instance (C14_text_parse_cfile, _parse_print, _ignored_text_irrelevant, _skipped_items_irrelevant, _entry_kept[_any], _delayfile_of_blocks); compared with lark on generated, mutated, malformed and corner-case texts on every run; a lexer probe checks that lark builds the scanners the model transcribes; the whitespace-in-names defect (D34) was found here. From the tree that the lark grammar hands to the transformer on, everything is '
              'modelled: triple/sanitize/cell/start, DelayFile.__init__, iopaths, interconnects (string processing of escaped names, edge qualifiers and '
              'pin references included). Proved for ALL block sequences: grouping keeps every entry of every CELL block per instance in file order '
              '(repeated instances, several instance-less blocks, several DELAY sections); for ALL circuits/files: the returned array is the zero array '
@@ -255,7 +251,7 @@ CLAIMS = {
              'single-output fork between the two pins, broadcast over axis 2. The statement about grouping is FALSE for the pinned code (dict(...) keeps '
              'only the last block of an instance, D6; witness theorem C14_cells_lost_refuted); it holds for the code with the proposed 3-line fix.',
         design_ref='5/C14',
-        note='Not modelled: lark grammar/lexer, float() of decimal strings (generated values are k/8), numpy broadcasting, verilog.parse. Supported subset: '
+        note='Modelled not verified: the behaviour of lark on this one grammar is transcribed and compared, not derived; float() is modelled for decimals denoting k/8 with at most 15 digits; numpy broadcasting, verilog.parse. Supported subset: '
              'non-negative delays (the skip test max(max(delvals))==0 drops e.g. "(0:0:0) (-1:0:0)"; for non-negative delays it drops exactly the all-zero '
              'entries, proved), one spelling per instance name in a file, INTERCONNECT to an output port only on fan-out-free nets (no branch fork is '
              'created for ports), an instance-less block exists when interconnects() is called (else TypeError), IOPATHs of unconnected pins above the '
